@@ -447,6 +447,62 @@ func checkC15(c *Ctx) {
 		}
 		return base
 	}
+	// character-level tie (ASCII texts): the Lean scanner model (text/scanner as configured by the two split functions,
+	// one character of look-ahead, strconv.Unquote on string tokens) must yield the token stream the real scanner produced;
+	// the real log stops early when the split loop returned an error, so it is a prefix that must be complete when it ends
+	// in EOF ("e") or in a scanner error ("x")
+	isASCII := func(s string) bool {
+		for i := 0; i < len(s); i++ {
+			if s[i] >= 0x80 {
+				return false
+			}
+		}
+		return true
+	}
+	scanTie := func(what, text string, toks []string, cs map[string]any) {
+		if !isASCII(text) || text == "" {
+			res.Count("scan-model/skipped: non-ASCII or empty text")
+			return
+		}
+		mode := "slice"
+		if what == "map" || what == "mmap" {
+			mode = "map"
+		}
+		reply := c.Drv.Ask("ps scan " + mode + " " + hexEnc(text))
+		if reply == "ood" {
+			res.Count("scan-model/outside: an escape denotes a non-ASCII value")
+			return
+		}
+		if !strings.HasPrefix(reply, "toks") {
+			res.Add(Finding{Kind: "disagreement", What: "scanner model: unexpected reply", Case: cs, Model: reply})
+			return
+		}
+		mt := strings.Fields(reply)[1:]
+		ok := len(toks) <= len(mt)
+		for i := 0; ok && i < len(toks); i++ {
+			ok = toks[i] == mt[i]
+		}
+		if ok && len(toks) > 0 && (toks[len(toks)-1] == "e" || toks[len(toks)-1] == "x") {
+			ok = len(toks) == len(mt)
+		}
+		res.Count("scan-model/compared/" + mode)
+		if len(mt) > 0 {
+			res.Count("scan-model/ends-in/" + mt[len(mt)-1])
+		}
+		if !ok {
+			res.Add(Finding{Kind: "disagreement", What: "character-level scanner model != token stream of the real text/scanner + strconv.Unquote", Case: cs,
+				Observed: strings.Join(toks, " "), Model: strings.Join(mt, " ")})
+		}
+	}
+	quoteTie := func(z string) {
+		if !isASCII(z) {
+			return
+		}
+		res.Count("quote-model/compared")
+		if m, want := c.Drv.Ask("ps quote "+hexEnc(z)), "ok "+hexEnc(strconv.Quote(z)); m != want {
+			res.Add(Finding{Kind: "disagreement", What: "quote model != strconv.Quote", Case: map[string]any{"string": hexEnc(z)}, Observed: want, Model: m})
+		}
+	}
 	for i := 0; i < n3; i++ {
 		what := []string{"slice", "set", "map", "mmap"}[r.Intn(4)]
 		size := r.Intn(5)
@@ -511,6 +567,8 @@ func checkC15(c *Ctx) {
 		if canonRes(what, impl) != canonRes(what, model) {
 			res.Add(Finding{Kind: "disagreement", What: "collection parser: state-machine model on the real token stream != implementation", Case: cs, Observed: impl, Model: model})
 		}
+		scanTie(what, text, toks, cs)
+		quoteTie(genStr(r))
 		if canonRes(what, impl) != canonRes(what, want) {
 			if kid != "" && isKnown("C15", kid) && impl == model {
 				res.Add(Finding{Kind: "known", KnownID: kid, What: "printed form does not parse back to the value", Case: cs, Expected: want, Observed: impl})
@@ -551,7 +609,89 @@ func checkC15(c *Ctx) {
 		if canonRes(what, impl) != canonRes(what, model) {
 			res.Add(Finding{Kind: "disagreement", What: "collection parser on arbitrary text: state-machine model on the real token stream != implementation", Case: cs, Observed: impl, Model: model})
 		}
+		scanTie(what, text, toks, cs)
 		res.Case("5|"+what+"|"+text, len(toks) >= 2, cs)
+	}
+
+	// ---- stream 9: escape-rich ASCII text (string, character and raw literals with every escape form, valid and broken;
+	// NUL characters; unterminated literals) through the four collection parsers: the real token stream against the
+	// character-level scanner model, and the state machines on that stream against the implementation
+	n9 := c.scale(4000, 300000)
+	genLit := func() string {
+		q := []byte{'"', '"', '"', '\'', '`'}[r.Intn(5)]
+		b := []byte{q}
+		for k, n := 0, r.Intn(5); k < n; k++ {
+			switch x := r.Intn(100); {
+			case x < 35:
+				b = append(b, "abzAZ09 .:,-_/$%{}="[r.Intn(len("abzAZ09 .:,-_/$%{}="))])
+			case x < 45:
+				b = append(b, byte(1+r.Intn(31))) // control characters incl. tab, CR, LF
+			case x < 50:
+				b = append(b, '\'', '"', '`', 0x7f, 0)
+				b = b[:len(b)-1-r.Intn(4)]
+			case q == '`':
+				b = append(b, "\\\r\n x"[r.Intn(5)])
+			default:
+				b = append(b, '\\')
+				const escs = "abfnrtv\\'\"xxuU0123789zZ "
+				e := escs[r.Intn(len(escs))]
+				b = append(b, e)
+				nd := map[byte]int{'x': 2, 'u': 4, 'U': 8, '0': 2, '1': 2, '2': 2, '3': 2}[e]
+				if r.Chance(15) {
+					nd = r.Intn(nd + 2)
+				}
+				for d := 0; d < nd; d++ {
+					digits := "0123456701234567" + "89abcdefABCDEF"
+					switch {
+					case e >= '0' && e <= '3' && r.Chance(92):
+						b = append(b, digits[r.Intn(8)])
+					case (e == 'u' || e == 'U') && d < nd-2 && r.Chance(85):
+						b = append(b, '0')
+					case r.Chance(4):
+						b = append(b, "gG-\"x"[r.Intn(5)])
+					default:
+						b = append(b, digits[r.Intn(len(digits))])
+					}
+				}
+			}
+		}
+		if !r.Chance(6) {
+			b = append(b, q)
+		}
+		return string(b)
+	}
+	for i := 0; i < n9; i++ {
+		what := []string{"slice", "set", "map", "mmap"}[r.Intn(4)]
+		var sb strings.Builder
+		for k, n := 0, 1+r.Intn(4); k < n; k++ {
+			if k > 0 {
+				sb.WriteString([]string{",", ", ", " ,", ":", ",\t", ""}[r.Intn(6)])
+			}
+			switch x := r.Intn(10); {
+			case x < 6:
+				sb.WriteString(genLit())
+			case x < 8:
+				sb.WriteString([]string{"a", "b1", "x y", "1.5", "-3", "k:v", "a\x00b", "\x00", "{", "=", "\x7f", "\\"}[r.Intn(12)])
+			default:
+				sb.WriteString(genLit() + ":" + genLit())
+			}
+		}
+		text := sb.String()
+		var impl string
+		var toks []string
+		pn := catch(func() { impl, toks = run(what, text) })
+		cs := map[string]any{"stream": "escapes-" + what, "text": text, "hex": hexEnc(text)}
+		if pn != "" {
+			res.Add(Finding{Kind: "violation", What: "collection parser panicked: " + pn, Case: cs})
+			continue
+		}
+		model := modelOf(what, text, toks)
+		res.Count("esc/" + what + "/" + strings.SplitN(impl, " ", 2)[0])
+		if canonRes(what, impl) != canonRes(what, model) {
+			res.Add(Finding{Kind: "disagreement", What: "collection parser on escape-rich text: state-machine model on the real token stream != implementation", Case: cs, Observed: impl, Model: model})
+		}
+		scanTie(what, text, toks, cs)
+		res.Case("9|"+what+"|"+text, len(toks) >= 2, cs)
 	}
 
 	// ---- stream 4: floats, complex, bool, duration, string (oracle only)
